@@ -80,6 +80,29 @@ pub fn run(row: &Value) -> Vec<String> {
                 obs.push(json!({"sch":sch,"labels":labels,"got":name_of(ps.for_url(&u))}));
             }
         }
+        // the same environment seen through the defaults every new request / session starts from: a request is
+        // really sent (the dial is refused by the hook) and the peer it dials shows the proxy chosen.  Rows follow
+        // each other in one process, so a choice remembered from an earlier environment shows up here.
+        for (host, labels) in [("c.test", vec!["c", "test"]), ("x.a.test", vec!["x", "a", "test"])] {
+            for sch in ["http", "https"] {
+                let dialled: std::sync::Arc<std::sync::Mutex<Vec<String>>> = Default::default();
+                let d2 = dialled.clone();
+                attohttpc::verif::set_dialer(Some(Box::new(move |req| {
+                    d2.lock().unwrap().push(req.host.clone());
+                    Some(Err(std::io::Error::new(std::io::ErrorKind::ConnectionRefused, "dial recorded")))
+                })));
+                let url = format!("{}://{}/x", sch, host);
+                let _ = if sch == "http" { attohttpc::get(&url).send().map(|_| ()) } else { attohttpc::Session::new().get(&url).send().map(|_| ()) };
+                attohttpc::verif::set_dialer(None);
+                let d = dialled.lock().unwrap();
+                let got = match d.first() {
+                    None => "no-dial".to_string(),
+                    Some(h) if h == host => "-".to_string(),
+                    Some(h) => h.trim_start_matches("p-").trim_end_matches(".test").replace('-', "_"),
+                };
+                obs.push(json!({"sch":sch,"labels":labels,"got":got}));
+            }
+        }
         for (_, var) in vars.iter().chain([("", "no_proxy"), ("", "NO_PROXY")].iter()) {
             std::env::remove_var(var);
         }
